@@ -466,18 +466,79 @@ def run_azolium(shard):
     return acc
 
 
+OTHER_OPS = {
+    'kekule': lambda m: m.kekule(),
+    'thiele': lambda m: (m.kekule(), _warm(m), m.thiele()),
+    'clean_isotopes': lambda m: m.clean_isotopes(),
+    'clean_stereo': lambda m: m.clean_stereo(),
+    'remove_acids': lambda m: m.remove_acids(),
+    'remove_coordinate_bonds': lambda m: m.remove_coordinate_bonds(),
+    'remove_metals': lambda m: m.remove_metals(),
+    'saturate': lambda m: m.saturate(),
+    'fix_stereo': lambda m: m.fix_stereo(),
+    'explicify then implicify': lambda m: (m.explicify_hydrogens(), _warm(m), m.implicify_hydrogens()),
+    'neutralize then standardize': lambda m: (m.neutralize(), _warm(m), m.standardize()),
+}
+
+
+def run_other_ops(shard):
+    """every other public operation that edits a molecule in place: with every memo populated beforehand, the derived values of the processed object must equal those of a
+    recomputed copy (nothing the operation forgot to drop survives); conservation clauses do not apply to these operations"""
+    from chython import smiles
+    k, nsh, tier = shard
+    acc = Acc()
+    rows = ['CC(=O)[O-].[Na+]', 'C[NH3+].[Cl-]', 'OC(=O)CC[NH3+].[Cl-]', 'c1ccccc1O', 'Oc1ccccn1', 'c1cc[nH]c1', 'C[C@H](N)C(=O)O', 'C/C=C/C', '[13CH3]C([2H])O', 'Cl[Pt](Cl)(N)N', 'C~[Fe]~C', 'N~[Cu]~N.O',
+            '[Fe](C#O)(C#O)(C#O)(C#O)C#O', 'CC(=O)O[Na]', 'C[Mg]Br', 'O.O.[Cu+2].[O-]S([O-])(=O)=O', 'CC(O)=O.CN', 'c1ccccc1.Cl', 'C1CC1.[Na+].[OH-]', 'OS(=O)(=O)O.NCCN', 'C[C@H]1CC[C@@H](O)CC1',
+            'CC=[C@]=CC', '[CH3]', 'C[O]', '[Na+].[Cl-].C1CCOC1', 'O=C(O)C(F)(F)F.CCN(CC)CC', '[Li]CCCC', 'C[Si](C)(C)C.[K+].[F-]']
+    rows += inputs.organometallics()[::6] + M.corpus(stride=40 if tier == 'quick' else 8)
+    for i, s in enumerate(rows):
+        if i % nsh != k:
+            continue
+        try:
+            m0 = smiles(s)
+        except Exception:
+            continue
+        for name, f in OTHER_OPS.items():
+            acc.states += 1
+            acc.transitions += 1
+            m = m0.copy()
+            _warm(m)
+            try:
+                f(m)
+            except Exception as e:
+                acc.outcomes[('operation raised', name, type(e).__name__)] += 1
+                continue
+            try:
+                r = coherent(m)
+            except Exception as e:
+                acc.fail('derived values cannot be read after %s: %s' % (name, type(e).__name__), mol=s, op=name)
+                continue
+            if r:
+                acc.fail('derived value "%s" of the processed object is stale after %s' % (r, name), mol=s, op=name)
+            acc.outcomes[name] += 1
+    acc.sample({'operations': list(OTHER_OPS), 'inputs': rows[:6]})
+    return acc
+
+
 def plan(tier, seed):
     return [Stage('small scope x operations x numberings', run_small, [(k, 64, tier) for k in range(64)], 'valence-valid D(<=%d,2) over N,O,S,P,B,Cl with charges/radicals x 11 operations x ALL/GEN numberings' % (4 if tier == 'quick' else 5)),
             Stage('every rule pattern instantiated', run_rules, [(k, 32, tier) for k in range(32)], '125 patterns of the standardisation/charge tables instantiated as molecules (element, bond-order and padding variants)'),
             Stage('charged azoles x substituent scan', run_azolium, [(k, 16, tier) for k in range(16)], 'imidazolium / pyrazolium (4 ring spellings) x 12x11 substituent pairs on a remote stereocentre x 2 linkers: idempotence, one form per cation'),
             Stage('documented functional-group pairs', run_documented, [0], 'the (input, canonical) pairs of standardize/test/test_groups.py'),
-            Stage('corpus, organometallics, special cases', run_corpus, [(k, 64, tier) for k in range(64)], 'corpus stride %d (tautomer fixing enabled for equivariance), organometallic combinator, zwitterions / gem-dinitro / sulfur cations / tautomerisable rings; tautomer enumeration' % (16 if tier == 'quick' else 2))]
+            Stage('corpus, organometallics, special cases', run_corpus, [(k, 64, tier) for k in range(64)], 'corpus stride %d (tautomer fixing enabled for equivariance), organometallic combinator, zwitterions / gem-dinitro / sulfur cations / tautomerisable rings; tautomer enumeration' % (16 if tier == 'quick' else 2)),
+            Stage('cache coherence after the other in-place operations', run_other_ops, [(k, 16, tier) for k in range(16)],
+                  '11 operations / operation pairs (kekule, thiele, clean_isotopes, clean_stereo, remove_acids, remove_coordinate_bonds, remove_metals, saturate, fix_stereo, ...) '
+                  'x salts, complexes, stereo molecules, corpus stride %d with every memo populated beforehand' % (40 if tier == 'quick' else 8))]
 
 
 def replay(rec):
     from chython import smiles
     tag = rec['mol']
     acc = Acc()
+    if rec.get('op') in OTHER_OPS and ('stale after' in rec.get('key', '') or 'cannot be read after' in rec.get('key', '')):
+        for k in range(16):
+            acc.merge(run_other_ops((k, 16, 'thorough')))
+        return [f for f in acc.fails if f['key'] == rec['key'] and f.get('mol') == tag]
     if 'tautomer' in rec.get('key', ''):
         import vf.props.c14 as me
         keep_c, keep_o, keep_t = M.corpus, inputs.organometallics, inputs.tautomer_stereo_family
